@@ -34,7 +34,7 @@ EXPLANATION = (
     "application object ends in the system-error exit on every path; R15f every temporary file of a fix pass is "
     "removed or handed to the caller on every normal and exceptional path (CFG pairing with exception edges from "
     "the may-raise analysis); R15g the user's file is replaced atomically, never written in place and never removed; R15h the "
-    "'file was changed' flag survives a later fault; R15i/R15j (=R13b/R13c) per-file state of rules, manager and tokenizer is reset when a file starts, on every path, so a failing file cannot leak into the next one; R15k (=R18c) a failed file always outranks fixed/triggered in the final result; R15l a per-file function that reported an error returns the failure status on that path. Not decided: that an error message is helpful; behaviour under "
+    "'file was changed' flag survives a later fault; R15i/R15j (=R13b/R13c) per-file state of rules, manager and tokenizer is reset when a file starts, on every path, so a failing file cannot leak into the next one; R15k (=R18c) a failed file always outranks fixed/triggered in the final result; R15l a per-file function that reported an error returns the failure status on that path. R15o every exception handler of the run driver reports the error through the per-file reporter or re-raises, on every path; R15p (=R14n) no failure changes a dispatch list. Not decided: that an error message is helpful; behaviour under "
     "SIGKILL between two system calls other than the write-back itself; implicit IndexError/KeyError are internal "
     "errors routed through the catch-all handlers (C01/C07), not modelled as failure sources."
 )
